@@ -119,6 +119,8 @@ def judge(R, it, res, cop_ans, first_ans, rand_ans):
 
 
 def run_items(R, items):
+    # same-shaped elections next to each other, so that the persistent profile objects are refilled in place between consecutive calls
+    items.sort(key=lambda it: (it["m"], len(it["P"])))
     cases = [{"items": ch} for ch in chunks(items, 40)]
     results = pmap("c12", "impl_batch", cases, deadline=120.0)
     flat = []
